@@ -115,3 +115,21 @@ fn c07_input_hostile_used() {
     kani::cover!(r.is_some());
     kani::cover!(r.is_none() && id >= N as u32);
 }
+
+// failed construction: the k-th DMA allocation fails (C09)
+// @harness props=C09 tier=quick timeout=2400
+#[kani::proof]
+#[kani::unwind(50)]
+fn c09_input_fail_k() {
+    lg_init_concrete();
+    let t = mt::<InDev>(DeviceType::Input, 1 << 32);
+    let k: usize = kani::any();
+    kani::assume(k >= 1 && k <= 4);
+    unsafe { DMA_FAIL_AT = k; }
+    match VirtIOInput::<THal<N>, MT<InDev>>::new(t) {
+        Err(e) => check_failed_new(e),
+        Ok(_) => assert!(false, "C09: construction succeeded although an allocation failed"),
+    }
+    kani::cover!(k == 1);
+    kani::cover!(k == 4);
+}
